@@ -103,6 +103,50 @@ func WriteCurrentManifest(stateRoot string, m *Manifest) error {
 	if err != nil {
 		return fmt.Errorf("encode manifest: %w", err)
 	}
+	return writeCurrentManifestBytes(stateRoot, data)
+}
+
+// saveCurrentManifest copies current-manifest.yaml into the rollback
+// snapshot so Rollback can put it back next to the artifacts it
+// restores. A box that has no manifest yet (never upgraded) leaves no
+// copy; any stale copy from an earlier snapshot of the same version is
+// removed so the two cases stay distinguishable.
+func saveCurrentManifest(stateRoot, snapDir string) error {
+	dst := filepath.Join(snapDir, "current-manifest.yaml")
+	data, err := os.ReadFile(filepath.Join(stateRoot, "current-manifest.yaml"))
+	if err != nil {
+		if errors.Is(err, fs.ErrNotExist) {
+			if rmErr := os.Remove(dst); rmErr != nil && !errors.Is(rmErr, fs.ErrNotExist) {
+				return rmErr
+			}
+			return nil
+		}
+		return err
+	}
+	return writeCurrentManifestBytes(snapDir, data)
+}
+
+// restoreCurrentManifest is the rollback half of saveCurrentManifest.
+// With no saved copy the manifest committed by the rolled-back upgrade
+// (if any) is removed, so CurrentInstalledVersion falls back to asking
+// the restored binary.
+func restoreCurrentManifest(snapDir, stateRoot string) error {
+	data, err := os.ReadFile(filepath.Join(snapDir, "current-manifest.yaml"))
+	if err != nil {
+		if errors.Is(err, fs.ErrNotExist) {
+			rmErr := os.Remove(filepath.Join(stateRoot, "current-manifest.yaml"))
+			if rmErr != nil && !errors.Is(rmErr, fs.ErrNotExist) {
+				return rmErr
+			}
+			return nil
+		}
+		return err
+	}
+	return writeCurrentManifestBytes(stateRoot, data)
+}
+
+// writeCurrentManifestBytes atomically writes dir/current-manifest.yaml.
+func writeCurrentManifestBytes(stateRoot string, data []byte) error {
 	target := filepath.Join(stateRoot, "current-manifest.yaml")
 	tmp, err := os.CreateTemp(stateRoot, ".current-manifest-*.yaml")
 	if err != nil {
